@@ -421,7 +421,13 @@ func (v *FnVerifier) runRoot(fn *ssa.Function, fc *FuncContract) {
 			if len(f.exits) > 1 {
 				name += fmt.Sprintf("@r%d", ri)
 			}
+			v.oblEnv = env
+			base := fmt.Sprintf("%s/post#%d%s", fc.Key, cl.Ord, tag)
+			if k, ok := v.eng.known[base]; ok {
+				v.eng.known[name] = k
+			}
 			v.oblige("post", name, cl.Tags, ex.reach, v.trClause(env, cl), fmt.Sprintf("%s:%d (return at %s)", strings.TrimPrefix(cl.File, "/repo/"), cl.Line, v.pos(ex.pos)), cl.Src)
+			v.oblEnv = nil
 		}
 	}
 	// ---- frame: one obligation per heap array that changed
